@@ -464,10 +464,11 @@ fn run_build(ctx: &mut Ctx, a: &[Arg]) {
             ctx.ln(
                 "build",
                 format!(
-                    "VAL total={} sov={} alloc={}",
+                    "VAL total={} sov={} alloc={} head={}",
                     st.header().total_size(),
                     size_of_val(st),
-                    lay.map(|(sz, al)| format!("{},{}", sz, al)).unwrap_or("none".into())
+                    lay.map(|(sz, al)| format!("{},{}", sz, al)).unwrap_or("none".into()),
+                    hexs(unsafe { core::slice::from_raw_parts(raw(st), 8) })
                 ),
             );
             let g = own(st);
@@ -680,11 +681,12 @@ fn run_hbuild(ctx: &mut Ctx, a: &[Arg]) {
             ctx.ln(
                 "hbuild",
                 format!(
-                    "VAL length={} sov={} last8={} alloc={}",
+                    "VAL length={} sov={} last8={} alloc={} head={}",
                     st.header().length(),
                     sov,
                     hexs(last8),
-                    lay.map(|(sz, al)| format!("{},{}", sz, al)).unwrap_or("none".into())
+                    lay.map(|(sz, al)| format!("{},{}", sz, al)).unwrap_or("none".into()),
+                    hexs(unsafe { core::slice::from_raw_parts(raw(st), 16) })
                 ),
             );
             let g = own(st);
